@@ -698,3 +698,402 @@ _run_before_generic = run
 def run(chk):       # noqa: F811
     _run_before_generic(chk)
     _generic_rules(chk)
+
+
+# ---------------------------------------------------------------------------------------------------------------
+# C13.value.canon: the canonicalisation itself.  drop_leading_zeros (and the same-class helpers it calls) is interpreted
+# by a small interpreter over the AST - strings, ints, lists, for/while/if, whitelisted str/list methods, a few builtins -
+# on a finite probe set of IPv4 / IPv6 texts.  Required of every output: same separators in the same order, same number
+# of groups, each group denotes the same number as the input group (base 10 / 16), no leading zero unless the group is '0'.
+# Equivalent formulations stay silent; anything the interpreter cannot read is an AnalysisError.
+
+CANON_PROBES = ['192.168.001.010', '255.010.001.255', '000.000.000.000', '10.0.0.1', '1.2.3.4', '0.0.0.0', '01.02.03.04',
+                '100.200.030.040', '010.100.000.200',
+                'fe80:0000:0000:0000:0200:5eff:fe00:5300', '0db8::0042', '::', '1::', '::1', '0200::', '::0200:0',
+                'ABCD:0ef0::1', '1:2:3:4:5:6:7:8', '001:0:00:000a::', '0000:0010:0100:1000:0001:00a0:0a00:a000']
+
+_STR_OK = {'replace', 'rstrip', 'lstrip', 'strip', 'split', 'rsplit', 'join', 'upper', 'lower', 'startswith', 'endswith',
+           'partition', 'rpartition', 'find', 'rfind', 'index', 'count', 'isdigit', 'isalpha', 'isalnum', 'zfill', 'rjust',
+           'ljust', 'removeprefix', 'removesuffix', 'format'}
+_LIST_OK = {'append', 'extend', 'pop', 'insert', 'reverse', 'index', 'count', 'copy'}
+
+
+class _Ret(Exception):
+    def __init__(self, v):
+        self.v = v
+
+
+class _Brk(Exception):
+    pass
+
+
+class _Cont(Exception):
+    pass
+
+
+class MiniInterp:
+    """interpreter for the string-manipulating subset of Python the canonicaliser is written in"""
+
+    def __init__(self, idx, cls, where):
+        self.idx, self.cls, self.where = idx, cls, where
+        self.budget = 200000
+
+    def fail(self, n, what):
+        raise AnalysisError('%s:%s not understood by the canonicalisation interpreter: %s'
+                            % (self.where, getattr(n, 'lineno', '?'), what))
+
+    def call(self, fn, args, depth=0):
+        if depth > 6:
+            self.fail(fn, 'helper recursion too deep')
+        params = [a.arg for a in fn.args.args]
+        if params and params[0] in ('self', 'cls'):
+            params = params[1:]
+        if fn.args.vararg or fn.args.kwarg or fn.args.kwonlyargs:
+            self.fail(fn, 'parameter kinds of %s' % fn.name)
+        defaults = fn.args.defaults
+        env = {}
+        for i, p in enumerate(params):
+            if i < len(args):
+                env[p] = args[i]
+            else:
+                j = i - (len(params) - len(defaults))
+                if j < 0:
+                    self.fail(fn, 'missing argument %s of %s' % (p, fn.name))
+                env[p] = self.ev(defaults[j], {}, depth)
+        try:
+            self.run(fn.body, env, depth)
+        except _Ret as r:
+            return r.v
+        return None
+
+    def helper(self, f):
+        """same-class helper: self.m / cls.m / ClassName.m"""
+        if isinstance(f, ast.Attribute) and isinstance(f.value, ast.Name):
+            names = {'self', 'cls'} | {k.name for k in self.idx.mro(self.cls)}
+            if f.value.id in names:
+                _k, fn = self.idx.find_method(self.cls, f.attr)
+                return fn
+        return None
+
+    def run(self, stmts, env, depth):
+        for st in _strip_doc(stmts):
+            self.budget -= 1
+            if self.budget < 0:
+                self.fail(st, 'step budget exhausted (non-terminating loop?)')
+            if isinstance(st, ast.Assign) and len(st.targets) == 1:
+                self.assign(st.targets[0], self.ev(st.value, env, depth), env, depth)
+            elif isinstance(st, ast.AnnAssign) and st.value is not None:
+                self.assign(st.target, self.ev(st.value, env, depth), env, depth)
+            elif isinstance(st, ast.AugAssign) and isinstance(st.target, ast.Name):
+                cur = self.ev(st.target, env, depth)
+                env[st.target.id] = self.binop(st, st.op, cur, self.ev(st.value, env, depth))
+            elif isinstance(st, ast.If):
+                self.run(st.body if self.ev(st.test, env, depth) else st.orelse, env, depth)
+            elif isinstance(st, ast.For):
+                it = self.ev(st.iter, env, depth)
+                if not isinstance(it, (str, list, range)):
+                    self.fail(st, 'loop over ' + ast.unparse(st.iter))
+                broke = False
+                for x in list(it):
+                    self.assign(st.target, x, env, depth)
+                    try:
+                        self.run(st.body, env, depth)
+                    except _Brk:
+                        broke = True
+                        break
+                    except _Cont:
+                        continue
+                if not broke:
+                    self.run(st.orelse, env, depth)
+            elif isinstance(st, ast.While):
+                while self.ev(st.test, env, depth):
+                    self.budget -= 1
+                    if self.budget < 0:
+                        self.fail(st, 'step budget exhausted (non-terminating loop?)')
+                    try:
+                        self.run(st.body, env, depth)
+                    except _Brk:
+                        break
+                    except _Cont:
+                        continue
+            elif isinstance(st, ast.Return):
+                raise _Ret(self.ev(st.value, env, depth) if st.value is not None else None)
+            elif isinstance(st, ast.Break):
+                raise _Brk()
+            elif isinstance(st, ast.Continue):
+                raise _Cont()
+            elif isinstance(st, ast.Pass):
+                continue
+            elif isinstance(st, ast.Expr):
+                self.ev(st.value, env, depth)
+            else:
+                self.fail(st, 'statement ' + type(st).__name__)
+
+    def assign(self, tgt, val, env, depth):
+        if isinstance(tgt, ast.Name):
+            env[tgt.id] = val
+        elif isinstance(tgt, (ast.Tuple, ast.List)) and isinstance(val, (list, tuple)) and len(val) == len(tgt.elts):
+            for t, v in zip(tgt.elts, val):
+                self.assign(t, v, env, depth)
+        elif isinstance(tgt, ast.Subscript) and not isinstance(tgt.slice, ast.Slice):
+            base = self.ev(tgt.value, env, depth)
+            if not isinstance(base, list):
+                self.fail(tgt, 'store into ' + ast.unparse(tgt))
+            try:
+                base[self.ev(tgt.slice, env, depth)] = val
+            except (IndexError, TypeError):
+                self.fail(tgt, 'index error in ' + ast.unparse(tgt))
+        else:
+            self.fail(tgt, 'assignment target ' + ast.unparse(tgt))
+
+    def binop(self, n, op, a, b):
+        try:
+            if isinstance(op, ast.Add) and type(a) is type(b) and isinstance(a, (str, list, int)) and not isinstance(a, bool):
+                return a + b
+            if isinstance(a, int) and isinstance(b, int) and not isinstance(a, bool) and not isinstance(b, bool):
+                if isinstance(op, ast.Sub):
+                    return a - b
+                if isinstance(op, ast.Mult):
+                    return a * b
+                if isinstance(op, ast.FloorDiv) and b:
+                    return a // b
+                if isinstance(op, ast.Mod) and b:
+                    return a % b
+            if isinstance(op, ast.Mult) and isinstance(a, str) and isinstance(b, int):
+                return a * min(b, 64)
+        except TypeError:
+            pass
+        self.fail(n, 'operator in ' + ast.unparse(n)[:60])
+
+    def ev(self, n, env, depth):
+        self.budget -= 1
+        if self.budget < 0:
+            self.fail(n, 'step budget exhausted')
+        if isinstance(n, ast.Constant):
+            return n.value
+        if isinstance(n, ast.Name):
+            if n.id in env:
+                return env[n.id]
+            self.fail(n, 'name ' + n.id)
+        if isinstance(n, (ast.List, ast.Tuple)):
+            return [self.ev(e, env, depth) for e in n.elts]
+        if isinstance(n, ast.JoinedStr):
+            out = ''
+            for p in n.values:
+                if isinstance(p, ast.Constant):
+                    out += str(p.value)
+                elif isinstance(p, ast.FormattedValue) and p.conversion == -1 and p.format_spec is None:
+                    v = self.ev(p.value, env, depth)
+                    if not isinstance(v, (str, int)):
+                        self.fail(n, 'f-string value')
+                    out += str(v)
+                else:
+                    self.fail(n, 'format spec')
+            return out
+        if isinstance(n, ast.BinOp):
+            return self.binop(n, n.op, self.ev(n.left, env, depth), self.ev(n.right, env, depth))
+        if isinstance(n, ast.BoolOp):
+            v = None
+            for x in n.values:
+                v = self.ev(x, env, depth)
+                if isinstance(n.op, ast.And) and not v:
+                    return v
+                if isinstance(n.op, ast.Or) and v:
+                    return v
+            return v
+        if isinstance(n, ast.UnaryOp):
+            v = self.ev(n.operand, env, depth)
+            if isinstance(n.op, ast.Not):
+                return not v
+            if isinstance(n.op, ast.USub) and isinstance(v, int):
+                return -v
+            self.fail(n, ast.unparse(n))
+        if isinstance(n, ast.IfExp):
+            return self.ev(n.body, env, depth) if self.ev(n.test, env, depth) else self.ev(n.orelse, env, depth)
+        if isinstance(n, ast.Compare):
+            left = self.ev(n.left, env, depth)
+            for op, c in zip(n.ops, n.comparators):
+                right = self.ev(c, env, depth)
+                try:
+                    if isinstance(op, ast.Eq):
+                        r = left == right
+                    elif isinstance(op, ast.NotEq):
+                        r = left != right
+                    elif isinstance(op, ast.In):
+                        r = left in right
+                    elif isinstance(op, ast.NotIn):
+                        r = left not in right
+                    elif isinstance(op, ast.Is):
+                        r = left is right
+                    elif isinstance(op, ast.IsNot):
+                        r = left is not right
+                    elif isinstance(op, ast.Lt):
+                        r = left < right
+                    elif isinstance(op, ast.LtE):
+                        r = left <= right
+                    elif isinstance(op, ast.Gt):
+                        r = left > right
+                    elif isinstance(op, ast.GtE):
+                        r = left >= right
+                    else:
+                        self.fail(n, ast.unparse(n))
+                except TypeError:
+                    self.fail(n, 'comparison ' + ast.unparse(n))
+                if not r:
+                    return False
+                left = right
+            return True
+        if isinstance(n, ast.Subscript):
+            base = self.ev(n.value, env, depth)
+            if not isinstance(base, (str, list)):
+                self.fail(n, ast.unparse(n))
+            try:
+                if isinstance(n.slice, ast.Slice):
+                    lo = self.ev(n.slice.lower, env, depth) if n.slice.lower is not None else None
+                    hi = self.ev(n.slice.upper, env, depth) if n.slice.upper is not None else None
+                    st = self.ev(n.slice.step, env, depth) if n.slice.step is not None else None
+                    return base[lo:hi:st]
+                return base[self.ev(n.slice, env, depth)]
+            except (IndexError, TypeError, ValueError):
+                self.fail(n, 'index error in ' + ast.unparse(n))
+        if isinstance(n, (ast.ListComp, ast.GeneratorExp)):
+            if len(n.generators) != 1 or n.generators[0].is_async:
+                self.fail(n, 'comprehension shape')
+            g = n.generators[0]
+            it = self.ev(g.iter, env, depth)
+            if not isinstance(it, (str, list, range)):
+                self.fail(n, 'comprehension over ' + ast.unparse(g.iter))
+            out = []
+            inner = dict(env)
+            for x in list(it):
+                self.assign(g.target, x, inner, depth)
+                if all(self.ev(c, inner, depth) for c in g.ifs):
+                    out.append(self.ev(n.elt, inner, depth))
+            return out
+        if isinstance(n, ast.Call):
+            return self.evcall(n, env, depth)
+        self.fail(n, type(n).__name__)
+
+    def evcall(self, n, env, depth):
+        f = n.func
+        if n.keywords:
+            self.fail(n, 'keyword arguments in ' + ast.unparse(n)[:60])
+        hf = self.helper(f)
+        if hf is not None:
+            return self.call(hf, [self.ev(a, env, depth) for a in n.args], depth + 1)
+        args = [self.ev(a, env, depth) for a in n.args]
+        if isinstance(f, ast.Name):
+            try:
+                if f.id == 'len' and len(args) == 1 and isinstance(args[0], (str, list, range)):
+                    return len(args[0])
+                if f.id == 'str' and len(args) == 1 and isinstance(args[0], (str, int)):
+                    return str(args[0])
+                if f.id == 'int' and 1 <= len(args) <= 2 and isinstance(args[0], (str, int)):
+                    return int(*args)
+                if f.id == 'range' and 1 <= len(args) <= 3 and all(isinstance(a, int) for a in args):
+                    r = range(*args)
+                    if len(r) > 10000:
+                        self.fail(n, 'range too long')
+                    return r
+                if f.id == 'enumerate' and len(args) == 1 and isinstance(args[0], (str, list, range)):
+                    return [[i, x] for i, x in enumerate(args[0])]
+                if f.id in ('list', 'tuple') and len(args) <= 1:
+                    return list(args[0]) if args else []
+                if f.id == 'reversed' and len(args) == 1 and isinstance(args[0], (str, list, range)):
+                    return list(reversed(args[0]))
+                if f.id == 'zip' and all(isinstance(a, (str, list, range)) for a in args):
+                    return [list(t) for t in zip(*args)]
+                if f.id in ('min', 'max') and args and all(isinstance(a, int) for a in args):
+                    return (min if f.id == 'min' else max)(args)
+                if f.id == 'bool' and len(args) == 1:
+                    return bool(args[0])
+            except (TypeError, ValueError):
+                self.fail(n, 'error evaluating ' + ast.unparse(n)[:60])
+            self.fail(n, 'call ' + ast.unparse(n)[:60])
+        if isinstance(f, ast.Attribute):
+            if isinstance(f.value, ast.Name) and f.value.id == 'str' and f.attr in _STR_OK and args and isinstance(args[0], str):
+                recv, args = args[0], args[1:]
+            else:
+                recv = self.ev(f.value, env, depth)
+            try:
+                if isinstance(recv, str) and f.attr in _STR_OK:
+                    r = getattr(recv, f.attr)(*args)
+                    return list(r) if isinstance(r, tuple) else r
+                if isinstance(recv, list) and f.attr in _LIST_OK:
+                    return getattr(recv, f.attr)(*args)
+            except (TypeError, ValueError, IndexError):
+                self.fail(n, 'error evaluating ' + ast.unparse(n)[:60])
+        self.fail(n, 'call ' + ast.unparse(n)[:60])
+
+
+def canon_verdict(text, out):
+    """None when `out` is the canonical form of `text`, else what is wrong"""
+    import re as _re
+    if not isinstance(out, str):
+        return 'is not a string'
+    base = 10 if '.' in text else 16
+    a, b = _re.split(r'([.:])', text), _re.split(r'([.:])', out)
+    if a[1::2] != b[1::2] or len(a) != len(b):
+        return 'has separators %s instead of %s' % (''.join(b[1::2]) or '-', ''.join(a[1::2]) or '-')
+    for i, (ga, gb) in enumerate(zip(a[0::2], b[0::2])):
+        if ga == '' or gb == '':
+            if ga != gb:
+                return 'group %d %r became %r' % (i + 1, ga, gb)
+            continue
+        try:
+            va, vb = int(ga, base), int(gb, base)
+        except ValueError:
+            return 'group %d %r became %r, which is not a number' % (i + 1, ga, gb)
+        if va != vb:
+            return 'group %d %r (%d) became %r (%d)' % (i + 1, ga, va, gb, vb)
+        if len(gb) > 1 and gb[0] == '0':
+            return 'group %d %r keeps a leading zero (%r)' % (i + 1, ga, gb)
+    return None
+
+
+def rule_canon(chk):
+    ev = Ev()
+    idx = ev.idx
+    chk.rule('C13.value.canon', 'drop_leading_zeros keeps separators and group values and leaves no leading zero '
+                                '(interpreted on a probe set of IPv4 / IPv6 texts)', floor=15, control=True)
+    done = set()
+    for r in registrations(ev, SEQ_RECOGNIZER):
+        if r.model_cls.name != 'IpAddressModel':
+            continue
+        p = r.args.get('parser')
+        pcls = idx.resolve_class(r.mod, p.func) if isinstance(p, ast.Call) else None
+        if pcls is None:
+            raise AnalysisError('%s:%d parser class of %s not resolvable' % (r.mod.rel, r.line, r.construct))
+        k, fn = idx.find_method(pcls, 'drop_leading_zeros')
+        if fn is None:
+            raise AnalysisError('anchor vanished: %s.drop_leading_zeros' % pcls.name)
+        if k.qual in done:
+            continue
+        done.add(k.qual)
+        chk.consulted(k.mod.path)
+        where = '%s %s.drop_leading_zeros' % (k.mod.rel, k.name)
+        for text in CANON_PROBES:
+            out = MiniInterp(idx, pcls, where).call(fn, [text])
+            why = canon_verdict(text, out)
+            chk.judge(why is None, 'C13.value.canon', k.mod.path, '%s.drop_leading_zeros(%r)' % (k.name, text), '%r -> %r' % (text, out),
+                      '%s.drop_leading_zeros turns %r into %r, which %s: the resolved value denotes another address'
+                      % (k.name, text, out, why), fn.lineno)
+    if not done:
+        raise AnalysisError('no IpAddressModel registration found')
+    from ..index import Cls
+    ctl = Cls(idx.mod('recognizers_sequence.sequence.parsers'), ast.parse(
+        "class P:\n    @staticmethod\n    def drop_leading_zeros(text):\n"
+        "        return '.'.join(P._n(g) for g in text.split('.'))\n"
+        "    @staticmethod\n    def _n(g):\n        if not g.startswith('0'):\n            return g\n"
+        "        return g.strip('0') or '0'\n").body[0])
+    out = MiniInterp(idx, ctl, 'control').call(ctl.methods['drop_leading_zeros'], ['255.010.001.255'])
+    chk.control('C13.value.canon', out == '255.1.1.255' and canon_verdict('255.010.001.255', out) is not None
+                and canon_verdict('255.010.001.255', '255.10.1.255') is None)
+
+
+_run_before_canon = run
+
+
+def run(chk):       # noqa: F811
+    _run_before_canon(chk)
+    rule_canon(chk)
